@@ -65,7 +65,7 @@ impl Summary {
             self.verdicts[i] += rec.verdicts[i];
         }
         for c in rec.cross {
-            let e = self.cross.entry(format!("{}:{}", c.prop, c.clause)).or_insert((0, c.detail.clone()));
+            let e = self.cross.entry(format!("{}:{}", c.prop, c.clause)).or_insert((0, format!("[run index {index}] {}", c.detail)));
             e.0 += 1;
         }
         if let Some(s) = rec.sample {
